@@ -29,7 +29,11 @@ func VerifH_c16_session() {
 	if inMulti {
 		vCmd(cs, "MULTI")
 	}
-	vFieldLogBegin(vSessionLabel(i), cs)
+	label := vSessionLabel(i)
+	if inMulti {
+		label += "m" // the command queued in a transaction and run by EXEC
+	}
+	vFieldLogBegin(label, cs)
 	panicked, _ := vCatch(func() {
 		vCmd(cs, vSessionCommands[i]...)
 		if inMulti && cs.cmdQueue != nil {
@@ -65,11 +69,17 @@ func VerifH_c16_pair() {
 	VerifSetup()
 	n := len(vSessionCommands)
 	a, b := vChoice("a", n+1), vChoice("b", n+1)
+	am, bm := vChoice("am", 2) == 1, vChoice("bm", 2) == 1
 	disp := vNewServer()
 	c1 := vNewClientOn(disp)
 	c2 := vNewClientOn(disp)
+	if vChoice("splitdb", 2) == 1 {
+		// the two connections work in different databases: no database lock
+		// orders their commands
+		vCmd(c2, "SELECT", "1")
+	}
 	if !vSymbolic() {
-		vRacePair(disp, c1, c2, a, b)
+		vRacePair(disp, c1, c2, a, b, am, bm)
 		return
 	}
 	if a < n {
